@@ -127,6 +127,7 @@ func (e *Env) Generate(p *Program) {
 		_ = os.MkdirAll(filepath.Dir(fp), 0o755)
 		_ = os.WriteFile(fp, f.Data, 0o644)
 	}
+	_ = os.MkdirAll(filepath.Join(p.Dir, p.Cwd), 0o755)
 	outFile := filepath.Join(p.Dir, "out", "gen.go")
 	args := append([]string{"-p", p.ID, "-o", outFile}, p.Args...)
 	args = append(args, p.Inputs...)
